@@ -653,6 +653,9 @@ def apply_op(w, op):
         owner = chained(cfg, path.rsplit(".", 1)[0]) if "." in path else cfg
         setattr(owner, path.rsplit(".", 1)[-1], v)
         return None
+    if name == "rawset":         # attribute assignment with the name taken as it is (no path splitting)
+        setattr(cfg, op[1], w.dec(op[2]))
+        return None
     if name == "selfset":        # the value read from the field is assigned back to it
         path = op[1]
         owner = chained(cfg, path.rsplit(".", 1)[0]) if "." in path else cfg
@@ -959,6 +962,10 @@ def ops_for(spec, leafname, tier="quick"):
                 ops.append(["set", kb, [held, D(("nosuchfield", 1))]])
                 ops.append(["setitem", kb, [held, 5]])
     if spec.get("dynamic"):
+        # a dynamic key is any attribute name: one that contains a dot is one key (here spelled like the path of a declared
+        # nested field), not a path
+        ops.append(["rawset", "dyn.x", 5])
+        ops.append(["rawset", "p.q", "v"])
         ops.append(["set", "newfield", 5])
         ops.append(["setitem", "newfield", "s"])
         ops.append(["load_tree", D(("loaded_dyn", [1]))])
